@@ -595,6 +595,11 @@ def _run(eng, contract, fn, res):
     if a.vararg or a.kwarg:
         if not contract.params.get("*ok"):
             raise Unsupported("*args/**kwargs parameter")
+        # opaque pass-through values (only forwarded to externals)
+        if a.vararg:
+            st.vars[a.vararg.arg] = PyConst("<varargs>")
+        if a.kwarg:
+            st.vars[a.kwarg.arg] = PyConst("<kwargs>")
     for arg in allargs:
         n = arg.arg
         if n == "self" and contract.self_type is not None:
